@@ -55,7 +55,13 @@ template<int ME> static inline __attribute__((always_inline)) void notifier()
     CHECK(woken >= ninf, "notify_all wakes every thread that was waiting without a deadline");
 #else
     thread* th;
-    if (inside) { th = CV.v.notify_one(); L.v.unlock(); } else { L.v.unlock(); th = CV.v.notify_one(); }
+    if (inside) {
+        th = CV.v.notify_one();
+#ifdef YIELD_HOLDING
+        thread_yield();            // keep the lock while the woken waiter runs: its re-lock is contended and goes through the yield/sleep path
+#endif
+        L.v.unlock();
+    } else { L.v.unlock(); th = CV.v.notify_one(); }
     woken = th ? 1 : 0;
     if (ninf > 0) CHECK(th != nullptr, "a thread that called wait() before the notifier took the lock is found by notify_one (no lost notification)");
     if (nw == 0) CHECK(th == nullptr, "notify_one wakes nobody when nobody was waiting");
@@ -70,7 +76,11 @@ void thread_entry_2() { notifier<2>(); }
 #else
 void thread_entry_1() { notifier<1>(); }
 #endif
+#ifdef USE_SPINLOCK
 NOINL void world_init() { new (&L.v) LockT(); new (&CV.v) condition_variable(); }
+#else
+NOINL void world_init() { new (&L.v) LockT(/*max_retries*/ 1); new (&CV.v) condition_variable(); }
+#endif
 NOINL void world_final(uint32_t all_done, uint32_t stuck)
 {
     if (all_done) {
